@@ -250,7 +250,7 @@ impl Tour {
                 .iter()
                 .map(|n| self.network.node(*n).travel_distance())
                 .sum();
-        let new_dead_head_distance = self.dead_head_distance
+        let mut new_dead_head_distance = self.dead_head_distance
             - self.dead_head_distance_of_segment(start_pos, end_pos)
             + self.dead_head_distance_of_new_nodes(&new_nodes, start_pos, end_pos);
 
@@ -263,6 +263,11 @@ impl Tour {
         let removed_nodes: Vec<NodeIdx> = new_tour_nodes
             .splice(start_pos..end_pos, new_nodes)
             .collect();
+        if self.dead_head_distance == Distance::Infinity {
+            // the infinite part might have been replaced (e.g., depot at the overflow depot)
+            new_dead_head_distance =
+                Tour::compute_dead_head_distance_of_nodes(&new_tour_nodes, &self.network);
+        }
 
         // 1) if new path contains maintenance then the new tour has a maintenance node. Otherwise:
         // 2) if the old tour had no maintenance node than the new tour has no maintenance node either.
